@@ -147,6 +147,7 @@ def main(pid, tier, repo=None):
     rule_init_offsets(ctx)
     bs = ctx.prog.crate("jxl_bitstream")
     c10.rule_consumed(ctx, bs)
+    c10.rule_retry(ctx, bs)
     c10.rule_boxhdr(ctx, bs)
     c10.rule_auxbox(ctx)
     c11.rule_forward(ctx)
